@@ -193,8 +193,10 @@ def analyse_dimap(obs: Obs, prog):
     obs.add({"C15", "C01"}, "TRACE-RETVAL", "Dimap.edit/retval", f.get("retval") == dcall("tree_primal", rd), derived=f.get("retval"), expected="primal of the returned retdiff", where=w)
     obs.add({"C15", "C05"}, "WEIGHT-UPD", "Dimap.edit/weight", q[1] == mk_proj(E, 1) and f.get("inner") == mk_proj(E, 0), derived=q[1], expected="inner weight; inner trace", where=w)
     obs.add({"C15", "C06"}, "BWD-OLDVALUES", "Dimap.edit/bwd", q[3] == mk_proj(E, 3), derived=q[3], expected="inner backward request", where=w)
-    r = ev.eval_fn(D.methods["edit"], D.module, D)
-    ok = r.ret is not None and len(mcalls(r.ret, "edit")) == 1
+    evd_ = Evaluator(prog)
+    evd_.opaque_methods.add("edit_change_target")
+    r = evd_.eval_fn(D.methods["edit"], D.module, D)
+    ok = r.ret == ("call", ("attr", SELF, "edit_change_target"), (P("key"), P("trace"), P("edit_request"), P("argdiffs")), ())
     obs.add({"C15", "C06"}, "DELEG-ROLE", "Dimap.edit", ok, derived=show(r.ret)[:120], expected="delegates every request to the inner function", where=W(D, "edit"))
     # decorators
     m = D.module
@@ -222,6 +224,41 @@ def analyse_dimap(obs: Obs, prog):
     obs.add({"C15"}, "COMPOSE", "contramap", okc, derived=t, expected="dimap(pre=f, post=identity on the return value)", where=f"{m.rel}:{cf.lineno}")
 
 
+def analyse_gf_methods(obs: Obs, prog):
+    gf = prog.cls("GenerativeFunction", "core/generative/generative_function.py")
+    ev = Evaluator(prog)
+    W = lambda m: f"{gf.module.rel}:{gf.methods[m].lineno}"
+    r = ev.eval_fn(gf.methods["dimap"], gf.module, gf)
+    ok = is_t(r.ret, "call") and r.ret[2] == (SELF,) and is_t(r.ret[1], "call") and dict(r.ret[1][3]) == {"pre": P("pre"), "post": P("post")}
+    obs.add({"C15"}, "COMPOSE", "GenerativeFunction.dimap", ok, derived=r.ret, expected="genjax.dimap(pre=pre, post=post)(self)", where=W("dimap"))
+    r = ev.eval_fn(gf.methods["map"], gf.module, gf)
+    ok = is_t(r.ret, "call") and r.ret[2] == (SELF,) and is_t(r.ret[1], "call") and (dict(r.ret[1][3]).get("f") == P("f") or r.ret[1][2] == (P("f"),))
+    obs.add({"C15"}, "COMPOSE", "GenerativeFunction.map", ok, derived=r.ret, expected="genjax.map(f)(self)", where=W("map"))
+    r = ev.eval_fn(gf.methods["contramap"], gf.module, gf)
+    ok = is_t(r.ret, "call") and r.ret[2] == (SELF,) and is_t(r.ret[1], "call") and (dict(r.ret[1][3]).get("f") == P("f") or r.ret[1][2] == (P("f"),))
+    obs.add({"C15"}, "COMPOSE", "GenerativeFunction.contramap", ok, derived=r.ret, expected="genjax.contramap(f)(self)", where=W("contramap"))
+    r = ev.eval_fn(gf.methods["mask"], gf.module, gf)
+    obs.add({"C14", "C16"}, "COMPOSE", "GenerativeFunction.mask", is_t(r.ret, "call") and r.ret[2] == (SELF,), derived=r.ret, expected="genjax.mask(self)", where=W("mask"))
+    r = ev.eval_fn(gf.methods["vmap"], gf.module, gf)
+    ok = is_t(r.ret, "call") and r.ret[2] == (SELF,) and is_t(r.ret[1], "call") and dict(r.ret[1][3]).get("in_axes") == P("in_axes")
+    obs.add({"C11"}, "COMPOSE", "GenerativeFunction.vmap", ok, derived=r.ret, expected="genjax.vmap(in_axes=in_axes)(self)", where=W("vmap"))
+    r = ev.eval_fn(gf.methods["scan"], gf.module, gf)
+    ok = is_t(r.ret, "call") and r.ret[2] == (SELF,) and is_t(r.ret[1], "call") and dict(r.ret[1][3]).get("n") == P("n")
+    obs.add({"C12"}, "COMPOSE", "GenerativeFunction.scan", ok, derived=r.ret, expected="genjax.scan(n=n)(self)", where=W("scan"))
+    r = ev.eval_fn(gf.methods["repeat"], gf.module, gf)
+    ok = is_t(r.ret, "call") and r.ret[2] == (SELF,) and is_t(r.ret[1], "call") and dict(r.ret[1][3]).get("n") == P("n")
+    obs.add({"C11"}, "COMPOSE", "GenerativeFunction.repeat", ok, derived=r.ret, expected="genjax.repeat(n=n)(self)", where=W("repeat"))
+    for nm in ("iterate", "iterate_final"):
+        r = ev.eval_fn(gf.methods[nm], gf.module, gf)
+        ok = is_t(r.ret, "call") and r.ret[2] == (SELF,) and is_t(r.ret[1], "call") and dict(r.ret[1][3]).get("n") == P("n") and r.ret[1][1][1].endswith("." + nm)
+        obs.add({"C12"}, "COMPOSE", f"GenerativeFunction.{nm}", ok, derived=r.ret, expected=f"genjax.{nm}(n=n)(self)", where=W(nm))
+    for nm in ("accumulate", "reduce", "masked_iterate", "masked_iterate_final"):
+        r = ev.eval_fn(gf.methods[nm], gf.module, gf)
+        ok = is_t(r.ret, "call") and r.ret[2] == (SELF,) and is_t(r.ret[1], "call") and r.ret[1][1][1].endswith("." + nm)
+        obs.add({"C12", "C16"}, "COMPOSE", f"GenerativeFunction.{nm}", ok, derived=r.ret, expected=f"genjax.{nm}()(self)", where=W(nm))
+
+
 def analyse(obs, prog):
+    analyse_gf_methods(obs, prog)
     analyse_mask(obs, prog)
     analyse_dimap(obs, prog)
